@@ -212,6 +212,7 @@ func flowStream(prop string, r *hx.Rand, tier string, n int, w *bufio.Writer) ma
 		if prop == "C04" {
 			gate = newC04xGate()
 			cfg.WrapStorage = gate.wrap
+			cfg.RequestObject = r.Chance(85) // round 4c (C04): request objects are a dimension of the history (c04ro.go)
 		}
 		var c7 *c07fState // deep4-C07: storage faults / concurrent refreshes inside the refresh chains (c07fault.go)
 		var gate7 *c07Gate
@@ -238,6 +239,10 @@ func flowStream(prop string, r *hx.Rand, tier string, n int, w *bufio.Writer) ma
 		if prop == "C04" {
 			sc = c04scSetup(r, bed, cls, stats)
 		}
+		var ro *c04roState // round 4c (C04): every registration gets a request-object key; authorization requests may carry a signed object (c04ro.go)
+		if prop == "C04" && cfg.RequestObject {
+			ro = c04roSetup(r, cls, stats)
+		}
 		for _, fc := range cls {
 			bed.Store.AddClient(fc.c)
 		}
@@ -257,6 +262,9 @@ func flowStream(prop string, r *hx.Rand, tier string, n int, w *bufio.Writer) ma
 		}
 		if c7a != nil {
 			c7a.describe(l)
+		}
+		if prop == "C04" {
+			l.B("reqobj", cfg.RequestObject)
 		}
 		emit(l)
 
@@ -320,6 +328,11 @@ func flowStream(prop string, r *hx.Rand, tier string, n int, w *bufio.Writer) ma
 				}
 				q.Set("id_token_hint", hint)
 			}
+			var sent *c04roSent // round 4c (C04): the PKCE parameters split between the query and a signed request object
+			if ro != nil && !dropChallenge && (ro.next != nil || r.Chance(40)) {
+				sent = ro.apply(q, fc, verifier, method)
+				verifier = sent.effVerifer
+			}
 			resp := bed.Do(bed.Get("/authorize", q, ""))
 			l := hx.NewLine(prop).I("case", int64(caseNo)).S("op", "authorize").S("client", fc.c.ID).S("redirect", redirect).
 				L("scopes", strings.Split(scopes, " ")).S("nonce", nonce).S("state", "st")
@@ -328,7 +341,9 @@ func flowStream(prop string, r *hx.Rand, tier string, n int, w *bufio.Writer) ma
 				sy.tokenKV(l, hint)
 				l.I("now0", time.Now().UnixNano())
 			}
-			if verifier != "" {
+			if sent != nil {
+				sent.describe(l)
+			} else if verifier != "" {
 				sym := verifier
 				if method == "S256" {
 					sym = "S256(" + verifier + ")"
@@ -351,6 +366,10 @@ func flowStream(prop string, r *hx.Rand, tier string, n int, w *bufio.Writer) ma
 				l.S("obs", "err").I("o.status", int64(resp.Status))
 				if resp.Loc != nil {
 					l.S("o.error", resp.Loc.Query().Get("error"))
+				} else if sent != nil && resp.Status == 400 && resp.OAuthError() == "" {
+					// round 4c: the Provider router answers an error that precedes the validation of client and redirect URI (here: the request
+					// object) with a plain-text 400 (AuthRequestError without an authorization request), the Server router with a JSON body
+					l.S("o.error", "invalid_request").S("o.body", "plain")
 				} else {
 					l.S("o.error", resp.OAuthError())
 				}
@@ -445,6 +464,9 @@ func flowStream(prop string, r *hx.Rand, tier string, n int, w *bufio.Writer) ma
 				methods = append(methods, oidc.AuthMethodPrivateKeyJWT)
 			}
 			change = reregister(r, fc, change, methods)
+			if ro != nil {
+				ro.rekey(fc) // round 4c (C04): a changed registration keeps its request-object key
+			}
 			if fc.c.Auth != was {
 				prevAuth[fc.c.ID] = was
 			}
@@ -849,7 +871,8 @@ func flowStream(prop string, r *hx.Rand, tier string, n int, w *bufio.Writer) ma
 			xc := &c04xCtx{prop: prop, tier: tier, r: r, bed: bed, sy: sy, cls: cls, byID: byID, stats: stats, gate: gate,
 				emit: emit, caseNo: &caseNo, doLogin: doLogin, doCallback: doCallback}
 			c04xScenarios(xc)
-			c04scScenarios(xc, sc) // round 4b: assertions of one private_key_jwt client for another's code under a custom subject check
+			c04scScenarios(xc, sc)              // round 4b: assertions of one private_key_jwt client for another's code under a custom subject check
+			c04roScenarios(xc, ro, doAuthorize) // round 4c: PKCE parameters split between the query and a signed request object
 		}
 		if prop == "C07" { // deep4-C07: scripted openings of c07fault.go (fault sweep over every storage call of a refresh, concurrent refreshes)
 			x7 := &c07fCtx{prop: prop, tier: tier, r: r, bed: bed, sy: sy, cls: cls, byID: byID, stats: stats, f: c7, gate: gate7,
